@@ -33,26 +33,35 @@ def run(tier, seed):
         mc = [dict(name='C08_proc', progs=C.fam(progs), plans=save_plans((1, 2, 3, 4)), alphabet=alpha, k=3, invariants=PROC_INV)]
         rp = [dict(name='C08_proc', progs=C.fam(progs), plans=save_plans((1, 2, 3, 4)), alphabet=alpha, k=2, run_kw=rk('pickle')),
               dict(name='C08_raw_bundle', progs=C.fam(['P04', 'P20', 'P24']), plans=save_plans((1, 2, 3, 4)), alphabet=['restore'], k=1, run_kw=rk('none'))]
-        outl = [('C08_outl', om.sample(om.family(4, 3), 600, seed), om.oracles(3), crash_sets(4, 1) + [(0, 1), (1, 2), (0, 2, 3)], 'pickle')]
+        outl = [('C08_outl', om.sample(om.family(4, 3), 600, seed), om.oracles(3), crash_sets(4, 1) + [(0, 1), (1, 2), (0, 2, 3)], 'pickle', 0),
+                # the checkpoint kept by one of the library's persisters (one key per process: every checkpoint replaces the last
+                # one), the instance abandoned right away or one unit later (the work since the checkpoint is lost and redone)
+                ('C08_outl_mem', om.sample(om.family(4, 3), 300, seed + 1), om.oracles(3), crash_sets(4, 1) + [(0, 1), (1, 2), (0, 2, 3)], 'mem', 0),
+                ('C08_outl_mem_late', om.sample(om.family(4, 3), 300, seed + 2), om.oracles(3), crash_sets(4, 1) + [(0, 2), (1, 3)], 'mem', 1),
+                ('C08_outl_pfile_late', om.sample(om.family(4, 3), 150, seed + 3), om.oracles(3), crash_sets(3, 1) + [(0, 2)], 'pfile', 1)]
     else:
         mc = [dict(name='C08_proc', progs=C.fam(progs), plans=save_plans((1, 2, 3, 4, 5)), alphabet=alpha, k=5, invariants=PROC_INV)]
         rp = [dict(name='C08_proc_%s' % m, progs=C.fam(progs), plans=save_plans((1, 2, 3, 4, 5)), alphabet=alpha, k=3, run_kw=rk(m))
               for m in ('pickle', 'copy', 'yaml')]
         # a raw (unserialised) Bundle is only good for ONE restore: the loaded process shares mutable members with it
         rp.append(dict(name='C08_raw_bundle', progs=C.fam(progs), plans=save_plans((1, 2, 3, 4, 5)), alphabet=['restore', 'resume'], k=2, run_kw=rk('none')))
-        outl = [('C08_outl4', om.family(4, 3), om.oracles(4), crash_sets(5, 2), 'pickle'),
-                ('C08_outl5', om.sample(om.family(5, 2), 3000, seed), om.oracles(4), crash_sets(6, 3), 'pickle'),
-                ('C08_outl_yaml', om.sample(om.family(4, 3), 1000, seed), om.oracles(3), crash_sets(4, 1), 'yaml')]
+        outl = [('C08_outl4', om.family(4, 3), om.oracles(4), crash_sets(5, 2), 'pickle', 0),
+                ('C08_outl5', om.sample(om.family(5, 2), 3000, seed), om.oracles(4), crash_sets(6, 3), 'pickle', 0),
+                ('C08_outl_yaml', om.sample(om.family(4, 3), 1000, seed), om.oracles(3), crash_sets(4, 1), 'yaml', 0),
+                ('C08_outl_mem', om.sample(om.family(4, 3), 2000, seed + 1), om.oracles(4), crash_sets(5, 2), 'mem', 0),
+                ('C08_outl_mem_late', om.sample(om.family(4, 3), 2000, seed + 2), om.oracles(4), crash_sets(5, 2), 'mem', 1),
+                ('C08_outl_mem_late2', om.sample(om.family(4, 3), 1000, seed + 4), om.oracles(4), crash_sets(5, 2), 'mem', 2),
+                ('C08_outl_pfile_late', om.sample(om.family(4, 3), 1000, seed + 3), om.oracles(4), crash_sets(5, 2), 'pfile', 1)]
     # outlines: TLC (stepper save/load inside the run) + every behaviour with real checkpoint/abandon/restore
     viol = 0
     ostates = ogen = oreplayed = 0
     osumm, osamples = [], []
-    for name, outlines, oracles, crashes, medium in outl:
-        r = outline_check.model_and_replay(name, outlines, oracles, crash_sets=crashes, invariants=OUT_INV, medium=medium)
+    for name, outlines, oracles, crashes, medium, lag in outl:
+        r = outline_check.model_and_replay(name, outlines, oracles, crash_sets=crashes, invariants=OUT_INV, medium=medium, lag=lag)
         res = r['tlc']
         ostates += res.distinct
         ogen += res.generated
-        osumm.append({'instance': name, 'outlines': len(outlines), 'oracles': len(oracles), 'crash_sets': len(crashes), 'medium': medium,
+        osumm.append({'instance': name, 'outlines': len(outlines), 'oracles': len(oracles), 'crash_sets': len(crashes), 'medium': medium, 'lag': lag,
                       'behaviours': r['behaviours'], 'mismatches': len(r['mismatches']), 'tlc_s': round(r['tlc_s'], 1),
                       'replay_s': round(r.get('replay_s', 0), 1)})
         if res.violated:
@@ -68,9 +77,9 @@ def run(tier, seed):
         for key, why, got in r['mismatches'][:5]:
             oi, ri, ci = key
             path = core_check.write_replay(PID, 'outline', {'kind': 'outline-mismatch', 'outline': outlines[oi - 1], 'oracle': oracles[ri - 1],
-                                                            'crash_at': list(crashes[ci - 1]), 'medium': medium, 'why': why,
+                                                            'crash_at': list(crashes[ci - 1]), 'medium': medium, 'lag': lag, 'why': why,
                                                             'expected_units': r['expected'][key][0], 'expected_result': r['expected'][key][1], 'got': got})
-            print('MISMATCH outline=%s oracle=%s crash_at=%s: %s' % (json.dumps(outlines[oi - 1]), oracles[ri - 1], list(crashes[ci - 1]), why))
+            print('MISMATCH outline=%s oracle=%s crash_at=%s medium=%s lag=%d: %s' % (json.dumps(outlines[oi - 1]), oracles[ri - 1], list(crashes[ci - 1]), medium, lag, why))
             print('VIOLATION property=%s replay=%s' % (PID, path))
         viol += len(r['mismatches'])
         keys = sorted(k for k in r['expected'] if crashes[k[2] - 1])
@@ -84,7 +93,8 @@ def run(tier, seed):
         assumptions=C.ASSUMPTIONS + ['steps depend only on persisted state (trace and oracle position live in ctx; continuation arguments in the state)',
                                      'checkpoints are taken at state entries (ENTERED_STATE callback) and at quiescent points; the abandoned instance is dropped'],
         rule='process programs: every placement of <=K save/restore/resume actions plus a checkpoint at the k-th state entry, several restores in a row; '
-             'outlines: every crash set of <=M unit boundaries for every (outline, oracle)',
+             'outlines: every crash set of <=M unit boundaries for every (outline, oracle); checkpoints carried by pickle / YAML, or kept by '
+             'InMemoryPersister / PicklePersister, the instance abandoned 0, 1 or 2 units after the checkpoint',
         extra_violations=viol,
         extra_cov={'outline_runs': osumm, 'outline_samples': osamples, 'outline_states': ostates, 'outline_behaviours_on_impl': oreplayed})
 
@@ -95,7 +105,8 @@ def replay(path):
         import logging
         logging.disable(logging.CRITICAL)
         from .. import outline_real
-        got = outline_real.run_outline(rec['outline'], rec['oracle'], crash_at=rec.get('crash_at', ()), medium=rec.get('medium', 'pickle'))
+        got = outline_real.run_outline(rec['outline'], rec['oracle'], crash_at=rec.get('crash_at', ()), medium=rec.get('medium', 'pickle'),
+                                       lag=rec.get('lag', 0), loaders=rec.get('loaders', 'default'))
         print('expected:', rec['expected_units'], rec['expected_result'])
         print('got     :', got)
         return 0 if (got['units'], got['result']) == (rec['expected_units'], rec['expected_result']) else 1
